@@ -223,7 +223,8 @@ Proof. intros v. semk (svar v) (even_svar v). Qed.
 (* ------------------------------------------------------------------ proxies on the reference model *)
 Lemma conv_local_val : forall x, conv_local (OVal x) = inl x. Proof. reflexivity. Qed.
 Lemma conv_local_attr : conv_local OAttrError = inr ORuntimeError. Proof. reflexivity. Qed.
-Lemma conv_stack_val : forall tw x, conv_stack tw (OVal x) = inl (get_name tw x). Proof. reflexivity. Qed.
+Lemma conv_stack_val : forall tw x, conv_stack tw (OVal x) = if N.eqb x none_id then inr ORuntimeError else inl (get_name tw x).
+Proof. reflexivity. Qed.
 Lemma conv_stack_none : forall tw, conv_stack tw ONone = inr ORuntimeError. Proof. reflexivity. Qed.
 Lemma proxy_out_inl : forall a msg x, proxy_out a msg (inl x) = bound_out a x. Proof. reflexivity. Qed.
 Lemma proxy_out_unb : forall a msg, proxy_out a msg (inr ORuntimeError) = unbound_out a msg. Proof. reflexivity. Qed.
@@ -254,10 +255,12 @@ Proof.
   intros sm v tw msg a K. pose proof (K (svar v)) as Kv. unfold bound_in, bound_of, sp_top.
   destruct (rget sm (svar v)) as [[d|l]|]; cbn [as_list snd].
   - specialize (Kv _ eq_refl). cbn in Kv. rewrite even_svar in Kv. discriminate.
-  - destruct (last_opt l); cbn [option_map].
-    + rewrite conv_stack_val, proxy_out_inl. reflexivity.
+  - destruct (last_opt l) as [x|].
+    + rewrite conv_stack_val. destruct (N.eqb x none_id).
+      * rewrite proxy_out_unb. apply unbound_out_spec.
+      * rewrite proxy_out_inl. reflexivity.
     + rewrite conv_stack_none, proxy_out_unb. apply unbound_out_spec.
-  - cbn [last_opt option_map]. rewrite conv_stack_none, proxy_out_unb. apply unbound_out_spec.
+  - cbn [last_opt]. rewrite conv_stack_none, proxy_out_unb. apply unbound_out_spec.
 Qed.
 
 Lemma proxy_spec_not_stuck : forall a msg b, proxy_spec a msg b <> OStuck.
@@ -770,4 +773,17 @@ Lemma round2_examples :
   snd (step gen_methods w (0, OpProxy 0 PaMessage)) = OMsg (Some 4%N) /\
   view (fst (run gen_methods (mw_schedule ++ [(0, OpSet 0 1%N 8%N); (0, OpLRelease 0)]))) 1 (lvar 0)
     = Some (Some (ODict [(1, 7)]%N)).
+Proof. vm_compute. repeat split. Qed.
+
+(* None as a value: an attribute of a Local bound to None is bound (the proxy resolves to None); a LocalStack
+   whose top is None makes its proxies report unbound - the behaviour of the code at this commit *)
+Lemma none_value_examples :
+  let w := fst (run gen_methods [(0, OpSet 0 1%N none_id); (0, OpPush 0 5%N); (0, OpPush 0 none_id);
+                                 (0, OpMkProxy (PLocal 0 1%N None)); (0, OpMkProxy (PStack 0 false None))]) in
+  snd (step gen_methods w (0, OpGet 0 1%N)) = OVal none_id /\
+  snd (step gen_methods w (0, OpIter 0)) = OItems [(1%N, none_id)] /\
+  snd (step gen_methods w (0, OpProxy 0 PaCurrent)) = OVal none_id /\
+  snd (step gen_methods w (0, OpProxy 0 PaBool)) = OBool false /\
+  snd (step gen_methods w (0, OpTop 0)) = OVal none_id /\
+  snd (step gen_methods w (0, OpProxy 1 PaCurrent)) = ORuntimeError.
 Proof. vm_compute. repeat split. Qed.
